@@ -6,7 +6,7 @@ CFG = {
     "prop_file": "theories/Properties/C15.v",
     "theory_files": ["theories/Base/Bytes.v", "theories/Base/BytesProofs.v",
                      "theories/Formats/Splat.v", "theories/Formats/SplatProofs.v",
-                     "theories/Formats/Spz.v", "theories/Formats/SpzProofs.v", "theories/Formats/SplatReal.v"],
+                     "theories/Formats/Spz.v", "theories/Formats/SpzProofs.v", "theories/Formats/SplatReal.v", "theories/Formats/SplatPlyLink.v"],
     "level_text": "Coq theorems about byte-level models of splat.Write/Read (32-byte records, exact rational "
                   "quantisers/dequantisers, count law, round trip within one 8-bit step, prefix behaviour, the pinned "
                   "rotation wrap refuted) and of spz.Read (header, planar arrays, 24-bit sign extension, half floats, "
@@ -17,8 +17,9 @@ CFG = {
     "level_note": "Trusted: Coq kernel + vm_compute; hand-written models tied by differential correspondence only "
                   "(generator quality bounds it); exp/log/sigmoid/sqrt are Go float functions: Section variables in the "
                   "theorems, tolerance checks harness-side (sqrt is checked in Coq through w*w); gzip is Go's "
-                  "compress/gzip; the PLY byte layout of SplatPly is only checked per case (body = float32 words in "
-                  "table order), the general PLY model belongs to C04; one theorem (splat_scale_real, the exp/log "
+                  "compress/gzip; SplatPly: the vertex block round trip is proved against the C08 reader model with "
+                  "the C04 group layout (imports Formats/PlyWriteProofs.v read-only), the header text and reader "
+                  "construction are checked per case only (C04's mesh-level glue is not proved yet); one theorem (splat_scale_real, the exp/log "
                   "scale clause) is stated over Coq's Reals and therefore shows the standard library's real-number "
                   "axioms under Print Assumptions, every other theorem is closed under the global context",
     "technique": "Coq proof (induction over record lists; Q/Z inequalities for the quantisers; nth/flat_map layout "
